@@ -426,6 +426,19 @@ func (g *c09Gen) action() bool {
 				label = "sort-then-store"
 			}
 		case 1:
+			if g.b("assignelems") {
+				// elements that are assignment expressions (or a match yielding a variable): the
+				// element is a copy of the value, not the variable that was assigned
+				stmts = append(stmts, ast.ExprS(ast.Set(ast.Id("lit2"), ast.Arr(ast.Set(ast.Id("v0"), ast.Num("5")), ast.Asg("+=", ast.Id("v0"), ast.Num("1")),
+					ast.Match(ast.Num("1"), ast.Case(ast.Id("v0"), ast.Id("mk"))), ast.Obj(ast.KV("k", ast.Set(ast.Id("v1"), ast.Str("t"))))))),
+					ast.ExprS(ast.Set(ast.Idx(ast.Id("lit2"), ast.Num("0")), ast.Str("changed-in-literal"))),
+					ast.ExprS(ast.Post("++", ast.Idx(ast.Id("lit2"), ast.Num("1")))),
+					ast.ExprS(ast.Set(ast.Idx(ast.Id("lit2"), ast.Num("2")), ast.Str("changed-too"))),
+					ast.ExprS(ast.Set(ast.Mem(ast.Idx(ast.Id("lit2"), ast.Num("3")), "k"), ast.Str("changed-three"))),
+					ast.Print(ast.Str("LIT2"), ast.Id("lit2")), ast.ExprS(ast.Set(ast.Id("v0"), ast.Num("77"))), ast.Print(ast.Str("LIT2b"), ast.Id("lit2")))
+				label = "literal-of-assignments-then-store"
+				break
+			}
 			stmts = append(stmts, ast.ExprS(ast.Set(ast.Id("lit"), ast.Arr(ast.Id("v0"), ast.Id("v1"), ast.Obj(ast.KV("k", ast.Id("v0")))))),
 				ast.ExprS(ast.Set(ast.Idx(ast.Id("lit"), ast.Num("0")), ast.Str("changed-in-literal"))),
 				ast.ExprS(ast.Post("++", ast.Mem(ast.Idx(ast.Id("lit"), ast.Num("2")), "k"))), ast.Print(ast.Str("LIT"), ast.Id("lit")))
